@@ -192,22 +192,24 @@ func searchIndex(p *binary.BinaryProtocol, idx int, elementWireType proto.WireTy
 }
 
 // searchIntKey in MAP Node
-// if key is found, return the value tag position, otherwise return the end of p.Buf
-func searchIntKey(p *binary.BinaryProtocol, key int, keyType proto.Type, mapFieldNumber proto.FieldNumber) (int, error) {
+// if key is found, return the value tag position and the tag position of its pair, otherwise return the end of p.Buf and -1
+func searchIntKey(p *binary.BinaryProtocol, key int, keyType proto.Type, mapFieldNumber proto.FieldNumber) (int, int, error) {
 	exist := false
 	start := p.Read
+	// the caller has consumed the tag of the first pair: pairStart is the tag offset of the pair being read
+	pairStart := p.Read - protowire.SizeVarint(uint64(mapFieldNumber)<<3|uint64(proto.BytesType))
 	for p.Read < len(p.Buf) {
 		if _, err := p.ReadLength(); err != nil {
-			return 0, wrapError(meta.ErrRead, "searchIntKey: read pair length failed", nil)
+			return 0, -1, wrapError(meta.ErrRead, "searchIntKey: read pair length failed", nil)
 		}
 
 		if _, _, _, keyTagErr := p.ConsumeTag(); keyTagErr != nil {
-			return 0, wrapError(meta.ErrRead, "searchIntKey: read key tag failed", nil)
+			return 0, -1, wrapError(meta.ErrRead, "searchIntKey: read key tag failed", nil)
 		}
 
 		k, err := p.ReadInt(keyType)
 		if err != nil {
-			return 0, wrapError(meta.ErrRead, "searchIntKey: can not read map key", nil)
+			return 0, -1, wrapError(meta.ErrRead, "searchIntKey: can not read map key", nil)
 		}
 
 		if k == key {
@@ -218,12 +220,12 @@ func searchIntKey(p *binary.BinaryProtocol, key int, keyType proto.Type, mapFiel
 
 		_, valueWireType, _, valueTagErr := p.ConsumeTag()
 		if valueTagErr != nil {
-			return 0, wrapError(meta.ErrRead, "searchIntKey: read value tag failed", nil)
+			return 0, -1, wrapError(meta.ErrRead, "searchIntKey: read value tag failed", nil)
 		}
 
 		// if key not match, skip value
 		if err := p.Skip(valueWireType, false); err != nil {
-			return 0, errNode(meta.ErrRead, "searchIntKey: searchIntKey: can not read value.", err)
+			return 0, -1, errNode(meta.ErrRead, "searchIntKey: searchIntKey: can not read value.", err)
 		}
 
 		if p.Read >= len(p.Buf) {
@@ -233,37 +235,40 @@ func searchIntKey(p *binary.BinaryProtocol, key int, keyType proto.Type, mapFiel
 		// don't move p.Read and judge whether readList completely
 		elementFieldNumber, _, n, err := p.ConsumeTagWithoutMove()
 		if err != nil {
-			return 0, err
+			return 0, -1, err
 		}
 		if elementFieldNumber != mapFieldNumber {
 			break
 		}
+		pairStart = p.Read
 		p.Read += n
 	}
 	if !exist {
-		return p.Read, errNotFound
+		return p.Read, -1, errNotFound
 	}
-	return start, nil
+	return start, pairStart, nil
 }
 
 // searchStrKey in MAP Node
-// if key is found, return the value tag position, otherwise return the end of p.Buf
-func searchStrKey(p *binary.BinaryProtocol, key string, keyType proto.Type, mapFieldNumber proto.FieldNumber) (int, error) {
+// if key is found, return the value tag position and the tag position of its pair, otherwise return the end of p.Buf and -1
+func searchStrKey(p *binary.BinaryProtocol, key string, keyType proto.Type, mapFieldNumber proto.FieldNumber) (int, int, error) {
 	exist := false
 	start := p.Read
+	// the caller has consumed the tag of the first pair: pairStart is the tag offset of the pair being read
+	pairStart := p.Read - protowire.SizeVarint(uint64(mapFieldNumber)<<3|uint64(proto.BytesType))
 
 	for p.Read < len(p.Buf) {
 		if _, err := p.ReadLength(); err != nil {
-			return 0, wrapError(meta.ErrRead, "searchStrKey: read pair length failed", nil)
+			return 0, -1, wrapError(meta.ErrRead, "searchStrKey: read pair length failed", nil)
 		}
 
 		if _, _, _, keyTagErr := p.ConsumeTag(); keyTagErr != nil {
-			return 0, wrapError(meta.ErrRead, "searchStrKey: read key tag failed", nil)
+			return 0, -1, wrapError(meta.ErrRead, "searchStrKey: read key tag failed", nil)
 		}
 
 		k, err := p.ReadString(false)
 		if err != nil {
-			return 0, wrapError(meta.ErrRead, "searchStrKey: can not read map key", nil)
+			return 0, -1, wrapError(meta.ErrRead, "searchStrKey: can not read map key", nil)
 		}
 
 		if k == key {
@@ -274,12 +279,12 @@ func searchStrKey(p *binary.BinaryProtocol, key string, keyType proto.Type, mapF
 
 		_, valueWireType, _, valueTagErr := p.ConsumeTag()
 		if valueTagErr != nil {
-			return 0, wrapError(meta.ErrRead, "searchStrKey: read value tag failed", nil)
+			return 0, -1, wrapError(meta.ErrRead, "searchStrKey: read value tag failed", nil)
 		}
 
 		// if key not match, skip value
 		if err := p.Skip(valueWireType, false); err != nil {
-			return 0, errNode(meta.ErrRead, "searchStrKey: searchStrKey: can not read value.", err)
+			return 0, -1, errNode(meta.ErrRead, "searchStrKey: searchStrKey: can not read value.", err)
 		}
 
 		if p.Read >= len(p.Buf) {
@@ -289,17 +294,18 @@ func searchStrKey(p *binary.BinaryProtocol, key string, keyType proto.Type, mapF
 		// don't move p.Read and judge whether readList completely
 		elementFieldNumber, _, n, err := p.ConsumeTagWithoutMove()
 		if err != nil {
-			return 0, err
+			return 0, -1, err
 		}
 		if elementFieldNumber != mapFieldNumber {
 			break
 		}
+		pairStart = p.Read
 		p.Read += n
 	}
 	if !exist {
-		return p.Read, errNotFound
+		return p.Read, -1, errNotFound
 	}
-	return start, nil
+	return start, pairStart, nil
 }
 
 // errCodeOf returns the error code of err without assuming its dynamic type: the search functions
@@ -424,7 +430,13 @@ func (self Value) getByPath(pathes ...Path) (Value, []int) {
 			}
 		case PathStrKey:
 			mapFieldNumber := desc.BaseId()
-			start, err = searchStrKey(&p, path.str(), proto.STRING, mapFieldNumber)
+			var pair int
+			start, pair, err = searchStrKey(&p, path.str(), proto.STRING, mapFieldNumber)
+			if i > 0 {
+				// the map field itself has no length: its address slot carries the tag of the matched pair (-1: none),
+				// whose length updateByteLen must re-patch when the value changes its size
+				address[i-1] = pair
+			}
 			tt = desc.Elem().Type()
 			valueDesc := desc.Elem()
 			desc = valueDesc
@@ -434,7 +446,11 @@ func (self Value) getByPath(pathes ...Path) (Value, []int) {
 		case PathIntKey:
 			keyType := desc.Key().Type()
 			mapFieldNumber := desc.BaseId()
-			start, err = searchIntKey(&p, path.int(), keyType, mapFieldNumber)
+			var pair int
+			start, pair, err = searchIntKey(&p, path.int(), keyType, mapFieldNumber)
+			if i > 0 {
+				address[i-1] = pair // see PathStrKey
+			}
 			tt = desc.Elem().Type()
 			valueDesc := desc.Elem()
 			desc = valueDesc
@@ -569,12 +585,23 @@ func (self *Value) updateByteLen(originLen int, address []int, isPacked bool, pa
 	afterLen := self.l
 	diffLen := afterLen - originLen
 	previousType := proto.UNKNOWN
+	// the type of the container a path step selects from
+	parentType := func(t PathType) proto.Type {
+		if t == PathStrKey || t == PathIntKey {
+			return proto.MAP
+		} else if t == PathIndex {
+			return proto.LIST
+		}
+		return proto.MESSAGE
+	}
 
 	for i := len(address) - 1; i >= 0; i-- {
 		// notice: when i == len(address) - 1, it do not change bytes length because it has been changed in replace function, just change previousType
 		pathType := path[i].t
 		addressPtr := address[i]
-		if previousType == proto.MESSAGE || (previousType == proto.LIST && isPacked) {
+		// a level carries a length to re-patch if the step below it selects a field (this level is a message), a map
+		// key (address[i] is then the tag of the matched pair, -1 if there is none) or an index of a packed list
+		if previousType == proto.MESSAGE || (previousType == proto.MAP && addressPtr >= 0) || (previousType == proto.LIST && isPacked) {
 			newBytes := NewBytesFromPool()
 			// tag
 			buf := rt.BytesFrom(rt.AddPtr(self.v, uintptr(addressPtr)), self.l-addressPtr, self.l-addressPtr)
@@ -593,6 +620,10 @@ func (self *Value) updateByteLen(originLen int, address []int, isPacked bool, pa
 			if subLen == 0 {
 				// no need to change length
 				copy(buf[tagOffset:tagOffset+lenOffset], newBytes)
+				FreeBytesToPool(newBytes)
+				// the outer levels must see the type of THIS step (a bare `continue` kept the inner one)
+				isPacked = false
+				previousType = parentType(pathType)
 				continue
 			}
 
@@ -623,13 +654,7 @@ func (self *Value) updateByteLen(originLen int, address []int, isPacked bool, pa
 			FreeBytesToPool(newBytes)
 		}
 
-		if pathType == PathStrKey || pathType == PathIntKey {
-			previousType = proto.MAP
-		} else if pathType == PathIndex {
-			previousType = proto.LIST
-		} else {
-			previousType = proto.MESSAGE
-		}
+		previousType = parentType(pathType)
 	}
 }
 
@@ -677,6 +702,9 @@ func (self *Value) UnsetByPath(path ...Path) error {
 	originLen := len(self.raw())
 	if err := self.replace(ret, Node{t: ret.t}); err != nil {
 		return errValue(meta.ErrWrite, "replace node by empty node failed", err)
+	}
+	if (p.t == PathStrKey || p.t == PathIntKey) && l >= 2 {
+		address[l-2] = -1 // a whole pair is removed: no pair length is left to re-patch
 	}
 	address = append(address, position) // must add one address align with path length
 	self.updateByteLen(originLen, address, isPacked, path...)
